@@ -8,16 +8,27 @@
 // other slot is blank (Number 0) and the slot count is a whole number of sheets (2*N slots: N per sheet side).
 // Page sets: {1..k}, the first k odd numbers, and a seeded random k-subset of 1..3k (page numbers != slot index).
 //
-// End-to-end layer: api.NUpFile / api.GridFile / api.BookletFile on a corpus multi-page PDF; output page count
-// (api.PageCountFile) = ceil(selected / cells) resp. slots / N.
+// A violated ordering is reported once per key with its SMALLEST case (configuration order, then page count, then
+// page set), and that case is then driven through the public route (PDFBookletConfig + api.BookletFile on the
+// marked document, no hook) so that the report says whether the defect is reachable by a caller.
+//
+// End-to-end layer: api.NUpFile / api.GridFile / api.BookletFile on (a) a corpus multi-page PDF: output page count
+// (api.PageCountFile) = ceil(selected / cells) resp. slots / N; (b) a harness-written document whose page i carries
+// the marker C34MARK<i> in its content: the output is read with the harness's own reader (internal/pdfstrict), each
+// output page's content is scanned for Do operators, each resolved through /Resources /XObject to the form whose
+// content carries the marker: every selected marker is placed exactly once, no other marker appears, and for n-up
+// and grid output page j holds the markers of selected pages j*cells+1 .. (j+1)*cells in that order.
 package main
 
 import (
+	"bytes"
 	"encoding/json"
 	"fmt"
 	"os"
 	"path/filepath"
+	"regexp"
 	"sort"
+	"strconv"
 	"strings"
 	"sync"
 
@@ -25,6 +36,7 @@ import (
 	"github.com/pdfcpu/pdfcpu/pkg/pdfcpu"
 	"github.com/pdfcpu/pdfcpu/pkg/pdfcpu/model"
 	"github.com/pdfcpu/pdfcpu/pkg/pdfcpu/types"
+	"verif/harness/internal/pdfstrict"
 	"verif/harness/internal/vk"
 )
 
@@ -224,10 +236,26 @@ func main() {
 		var mu sync.Mutex
 		counters := map[string]int64{}
 		var evals, nontriv int64
-		reported := sync.Map{}
+		// first (smallest) failing case per violation key: reported after the enumeration so that the
+		// reported case does not depend on goroutine scheduling
+		type firstCase struct {
+			rank [3]int // configuration index, page count, page-set index
+			what string
+			oc   orderCase
+		}
+		first := map[string]firstCase{}
+		less := func(a, b [3]int) bool {
+			for i := range a {
+				if a[i] != b[i] {
+					return a[i] < b[i]
+				}
+			}
+			return false
+		}
 		vk.Parallel(len(accepted), func(i int) {
 			p := accepted[i]
 			local := map[string]int64{}
+			localFirst := map[string]firstCase{}
 			var ev, nt int64
 			for k := 1; k <= maxK; k++ {
 				sets := map[string][]int{"random": randomSet(k)}
@@ -236,7 +264,7 @@ func main() {
 					dense[j], odd[j] = j+1, 2*j+1
 				}
 				sets["dense"], sets["odd"] = dense, odd
-				for _, name := range []string{"dense", "odd", "random"} {
+				for si, name := range []string{"dense", "odd", "random"} {
 					pages := sets[name]
 					// fresh NUp per call: the ordering must not depend on leftovers of earlier calls
 					nup, err := p.c.parse()
@@ -258,9 +286,10 @@ func main() {
 					}
 					key := p.c.violationKey(class)
 					local["violations/"+key]++
-					if _, seen := reported.LoadOrStore(key, true); !seen {
-						t.Violate(key, fmt.Sprintf("booklet %d '%s' with %d selected pages (%s set %v): %s", p.c.N, p.c.desc(), k, name, clip(pages), what),
-							orderCase{Config: p.c, Desc: p.c.desc(), Pages: pages, Set: name})
+					if _, seen := localFirst[key]; !seen { // k and si ascend within one configuration
+						localFirst[key] = firstCase{[3]int{i, k, si},
+							fmt.Sprintf("booklet %d '%s' with %d selected pages (%s set %v): %s", p.c.N, p.c.desc(), k, name, clip(pages), what),
+							orderCase{Config: p.c, Desc: p.c.desc(), Pages: pages, Set: name}}
 					}
 				}
 			}
@@ -270,11 +299,28 @@ func main() {
 			for k, v := range local {
 				counters[k] += v
 			}
+			for k, v := range localFirst {
+				if cur, ok := first[k]; !ok || less(v.rank, cur.rank) {
+					first[k] = v
+				}
+			}
 			mu.Unlock()
 		})
 		t.EvalBulk(evals, nontriv)
 		for k, v := range counters {
 			t.Count(k, v)
+		}
+		marked := writeMarkedDoc(t)
+		keys := make([]string, 0, len(first))
+		for k := range first {
+			keys = append(keys, k)
+		}
+		sort.Strings(keys)
+		for _, k := range keys {
+			fc := first[k]
+			pub := publicRoute(t, fc.oc, marked)
+			t.Count("ordering_violations_public_route/"+pub.class, 1)
+			t.Violate(k, fc.what+" || public route (PDFBookletConfig + api.BookletFile, pages "+fmt.Sprint(clip(fc.oc.Pages))+" of the marked document): "+pub.what, fc.oc)
 		}
 		t.Sample(orderCase{Config: accepted[0].c, Desc: accepted[0].c.desc(), Pages: randomSet(7), Set: "random"})
 		if len(accepted) > 40 {
@@ -282,7 +328,7 @@ func main() {
 		}
 		t.Exhaustive(true)
 
-		endToEnd(t, func(i int) (config, *model.NUp) { return accepted[i].c, accepted[i].nup }, len(accepted))
+		endToEnd(t, func(i int) (config, *model.NUp) { return accepted[i].c, accepted[i].nup }, len(accepted), marked)
 	})
 }
 
@@ -304,14 +350,17 @@ func firstLine(s string) string {
 }
 
 func replay(t *vk.T) {
+	marked := writeMarkedDoc(t)
 	var oc orderCase
 	if err := json.Unmarshal(t.Replay.Case, &oc); err == nil && oc.Config.N != 0 {
 		nup, err := oc.Config.parse()
 		if err != nil {
-			t.Broken("replay: configuration rejected: %v", err)
+			fmt.Printf("REPLAY: PDFBookletConfig now rejects the configuration: %v\n", err)
+			return
 		}
 		if class, what, _ := checkOrdering(nup, oc.Pages); class != "" {
-			t.Violate(oc.Config.violationKey(class), what, oc)
+			pub := publicRoute(t, oc, marked)
+			t.Violate(oc.Config.violationKey(class), what+" || public route: "+pub.what, oc)
 		}
 		return
 	}
@@ -319,36 +368,229 @@ func replay(t *vk.T) {
 	if err := json.Unmarshal(t.Replay.Case, &ec); err != nil || ec.Op == "" {
 		t.Broken("replay case not understood")
 	}
-	runE2E(t, ec, filepath.Join(vk.RepoDir(), "pkg", "testdata", "bookletTest.pdf"), 0)
+	in := filepath.Join(vk.RepoDir(), "pkg", "testdata", "bookletTest.pdf")
+	if ec.Input == "marked" {
+		in = marked.path
+	}
+	runE2E(t, ec, in, 0)
 }
 
+// ---- the marked document and its reader ----------------------------------------------------------
+
+const markedPageCount = 37
+
+type markedDoc struct {
+	path  string
+	pages int
+}
+
+// writeMarkedDoc writes a plain PDF 1.7 file of markedPageCount A4 pages; page i shows and carries C34MARK<i>.
+func writeMarkedDoc(t *vk.T) markedDoc {
+	var b bytes.Buffer
+	var offs []int
+	obj := func(body string) {
+		offs = append(offs, b.Len())
+		fmt.Fprintf(&b, "%d 0 obj\n%s\nendobj\n", len(offs), body)
+	}
+	b.WriteString("%PDF-1.7\n%\xe2\xe3\xcf\xd3\n")
+	n := markedPageCount
+	kids := make([]string, n)
+	for i := range kids {
+		kids[i] = fmt.Sprintf("%d 0 R", 4+2*i)
+	}
+	obj("<< /Type /Catalog /Pages 2 0 R >>")
+	obj(fmt.Sprintf("<< /Type /Pages /Count %d /Kids [%s] >>", n, strings.Join(kids, " ")))
+	obj("<< /Type /Font /Subtype /Type1 /BaseFont /Helvetica /Encoding /WinAnsiEncoding >>")
+	for i := 1; i <= n; i++ {
+		obj(fmt.Sprintf("<< /Type /Page /Parent 2 0 R /MediaBox [0 0 595 842] /Resources << /Font << /F1 3 0 R >> >> /Contents %d 0 R >>", 5+2*(i-1)))
+		content := fmt.Sprintf("BT /F1 48 Tf 100 400 Td (C34MARK<%d>) Tj ET\n", i)
+		obj(fmt.Sprintf("<< /Length %d >>\nstream\n%sendstream", len(content), content))
+	}
+	xref := b.Len()
+	fmt.Fprintf(&b, "xref\n0 %d\n0000000000 65535 f \n", len(offs)+1)
+	for _, o := range offs {
+		fmt.Fprintf(&b, "%010d 00000 n \n", o)
+	}
+	fmt.Fprintf(&b, "trailer\n<< /Size %d /Root 1 0 R >>\nstartxref\n%d\n%%%%EOF\n", len(offs)+1, xref)
+	path := filepath.Join(t.Scratch(), "c34-marked.pdf")
+	if err := os.WriteFile(path, b.Bytes(), 0o644); err != nil {
+		t.Broken("marked document: %v", err)
+	}
+	if err := api.ValidateFile(path, newConf()); err != nil {
+		t.Broken("marked document does not validate: %v", err)
+	}
+	if pc, err := api.PageCountFile(path); err != nil || pc != n {
+		t.Broken("marked document: page count %d, %v", pc, err)
+	}
+	return markedDoc{path, n}
+}
+
+var (
+	doRe   = regexp.MustCompile(`/([^\s/\[\]<>(){}%]+)\s+Do\b`)
+	markRe = regexp.MustCompile(`C34MARK<(\d+)>`)
+)
+
+// readMarkers returns, per output page, the markers of the forms its content paints, in painting order.
+func readMarkers(file string) ([][]int, error) {
+	data, err := os.ReadFile(file)
+	if err != nil {
+		return nil, err
+	}
+	doc, err := pdfstrict.Open(data, pdfstrict.Options{})
+	if err != nil {
+		return nil, err
+	}
+	pages, err := doc.Pages()
+	if err != nil {
+		return nil, err
+	}
+	out := make([][]int, len(pages))
+	for pi, pg := range pages {
+		if pg.ContentErr != nil {
+			return nil, fmt.Errorf("output page %d: %v", pi+1, pg.ContentErr)
+		}
+		for _, m := range markRe.FindAllSubmatch(pg.Content, -1) { // a marker painted without a form
+			v, _ := strconv.Atoi(string(m[1]))
+			out[pi] = append(out[pi], v)
+		}
+		var xo pdfstrict.Dict
+		if pg.Resources != nil {
+			xo, _ = doc.ResolveDict(pg.Resources["XObject"])
+		}
+		for _, m := range doRe.FindAllSubmatch(pg.Content, -1) {
+			name := string(m[1])
+			st, ok := doc.Resolve(xo[name]).(*pdfstrict.Stream)
+			if !ok {
+				return nil, fmt.Errorf("output page %d: /%s Do does not resolve to a stream through /Resources /XObject", pi+1, name)
+			}
+			fb, err := doc.DecodeStream(st)
+			if err != nil {
+				return nil, fmt.Errorf("output page %d: form /%s: %v", pi+1, name, err)
+			}
+			for _, mm := range markRe.FindAllSubmatch(fb, -1) {
+				v, _ := strconv.Atoi(string(mm[1]))
+				out[pi] = append(out[pi], v)
+			}
+		}
+	}
+	return out, nil
+}
+
+// placement compares the markers of an output with the selected pages. inOrder: output page j must hold
+// pages[j*cells:(j+1)*cells] in that order (n-up, grid); otherwise only "each exactly once, nothing else".
+func placement(perPage [][]int, pages []int, cells int, inOrder bool) (class, what string) {
+	sel := map[int]bool{}
+	for _, p := range pages {
+		sel[p] = true
+	}
+	seen := map[int]int{}
+	for _, pp := range perPage {
+		for _, m := range pp {
+			seen[m]++
+		}
+	}
+	var missing, dup, foreign []int
+	for _, p := range pages {
+		switch {
+		case seen[p] == 0:
+			missing = append(missing, p)
+		case seen[p] > 1:
+			dup = append(dup, p)
+		}
+	}
+	for m := range seen {
+		if !sel[m] {
+			foreign = append(foreign, m)
+		}
+	}
+	sort.Ints(foreign)
+	switch {
+	case len(missing) > 0:
+		return "marker-missing", fmt.Sprintf("selected pages %v are not placed in the output (markers per output page: %v)", clip(missing), perPage)
+	case len(dup) > 0:
+		return "marker-duplicated", fmt.Sprintf("selected pages %v are placed more than once (markers per output page: %v)", clip(dup), perPage)
+	case len(foreign) > 0:
+		return "foreign-marker", fmt.Sprintf("pages %v are placed but not selected (markers per output page: %v)", clip(foreign), perPage)
+	}
+	if inOrder {
+		for j, pp := range perPage {
+			lo, hi := j*cells, (j+1)*cells
+			if hi > len(pages) {
+				hi = len(pages)
+			}
+			if lo > hi {
+				lo = hi
+			}
+			if fmt.Sprint(pp) != fmt.Sprint(pages[lo:hi]) {
+				return "wrong-output-page-or-order", fmt.Sprintf("output page %d holds %v, want %v", j+1, pp, pages[lo:hi])
+			}
+		}
+	}
+	return "", ""
+}
+
+func selectionOf(pages []int) []string {
+	s := make([]string, len(pages))
+	for i, p := range pages {
+		s[i] = strconv.Itoa(p)
+	}
+	return s
+}
+
+type pubResult struct{ class, what string }
+
+// publicRoute drives one ordering case through PDFBookletConfig + api.BookletFile on the marked document.
+func publicRoute(t *vk.T, oc orderCase, marked markedDoc) (res pubResult) {
+	for _, p := range oc.Pages {
+		if p > marked.pages {
+			return pubResult{"not-driven", fmt.Sprintf("not driven (page %d exceeds the %d pages of the marked document)", p, marked.pages)}
+		}
+	}
+	nup, err := oc.Config.parse()
+	if err != nil {
+		return pubResult{"rejected", "PDFBookletConfig rejects the configuration: " + err.Error()}
+	}
+	out := filepath.Join(t.Scratch(), "c34-public-route.pdf")
+	defer os.Remove(out)
+	defer func() {
+		if r := recover(); r != nil {
+			res = pubResult{"panic", fmt.Sprintf("api.BookletFile PANICS: %v", r)}
+		}
+	}()
+	if err := api.BookletFile([]string{marked.path}, out, selectionOf(oc.Pages), nup, newConf()); err != nil {
+		return pubResult{"error", "api.BookletFile fails: " + firstLine(err.Error())}
+	}
+	perPage, err := readMarkers(out)
+	if err != nil {
+		return pubResult{"output-unreadable", "api.BookletFile succeeds, output unreadable: " + err.Error()}
+	}
+	if class, what := placement(perPage, oc.Pages, 0, false); class != "" {
+		return pubResult{class, "api.BookletFile SUCCEEDS but " + what}
+	}
+	return pubResult{"clean", "api.BookletFile succeeds and places every selected page once"}
+}
+
+// ---- end-to-end layer ----------------------------------------------------------------------------
+
 type e2eCase struct {
-	Op        string   `json:"op"` // nup | grid | booklet
+	Op        string   `json:"op"`    // nup | grid | booklet
+	Input     string   `json:"input"` // corpus | marked
 	N         int      `json:"n,omitempty"`
 	Rows      int      `json:"rows,omitempty"`
 	Cols      int      `json:"cols,omitempty"`
 	Desc      string   `json:"description,omitempty"`
 	Selection []string `json:"selection"`
+	Pages     []int    `json:"selected_page_numbers"`
 	Selected  int      `json:"selected_pages"`
 	Want      int      `json:"want_output_pages"`
 	Config    *config  `json:"config,omitempty"`
-}
-
-// placementCheck is the hook for the marker-based placement check (every selected marker placed exactly once,
-// n-up/grid markers in order): each output page's content is scanned for Do operators, resolved through
-// /Resources /XObject to the form whose content carries the marker.
-//
-// TODO(pdfgen): implement once the generator library provides marked multi-page documents; until then only the
-// output page count is checked end to end and this hook counts what it skipped.
-func placementCheck(t *vk.T, outFile string, ec e2eCase) {
-	_ = outFile
-	t.Count("placement_checks_skipped_TODO_pdfgen", 1)
 }
 
 func runE2E(t *vk.T, ec e2eCase, inFile string, idx int) {
 	out := filepath.Join(t.Scratch(), fmt.Sprintf("c34-%d.pdf", idx))
 	defer os.Remove(out)
 	var err error
+	cells := 0
 	func() {
 		defer func() {
 			if r := recover(); r != nil {
@@ -360,16 +602,19 @@ func runE2E(t *vk.T, ec e2eCase, inFile string, idx int) {
 		switch ec.Op {
 		case "nup":
 			var nup *model.NUp
+			cells = ec.N
 			if nup, err = api.PDFNUpConfig(ec.N, ec.Desc, conf); err == nil {
 				err = api.NUpFile([]string{inFile}, out, ec.Selection, nup, conf)
 			}
 		case "grid":
 			var nup *model.NUp
+			cells = ec.Rows * ec.Cols
 			if nup, err = api.PDFGridConfig(ec.Rows, ec.Cols, ec.Desc, conf); err == nil {
 				err = api.GridFile([]string{inFile}, out, ec.Selection, nup, conf)
 			}
 		case "booklet":
 			var nup *model.NUp
+			cells = ec.Config.N
 			if nup, err = ec.Config.parse(); err == nil {
 				err = api.BookletFile([]string{inFile}, out, ec.Selection, nup, conf)
 			}
@@ -384,8 +629,8 @@ func runE2E(t *vk.T, ec e2eCase, inFile string, idx int) {
 	case "booklet":
 		key += "/" + ec.Config.keyPart()
 	}
-	t.Eval(fmt.Sprintf("%s/sel=%v", key, ec.Selection))
-	t.Count("e2e_runs/"+ec.Op, 1)
+	t.Eval(fmt.Sprintf("%s/%s/sel=%v", key, ec.Input, ec.Selection))
+	t.Count("e2e_runs/"+ec.Op+"/"+ec.Input, 1)
 	if err != nil {
 		t.Violate(key+"/error", fmt.Sprintf("%s on %d selected pages fails: %v", ec.Op, ec.Selected, err), ec)
 		return
@@ -399,56 +644,98 @@ func runE2E(t *vk.T, ec e2eCase, inFile string, idx int) {
 		t.Violate(key+"/page-count", fmt.Sprintf("%s %+v of %d selected pages (%v) gives %d output pages, want %d", ec.Op, ec, ec.Selected, ec.Selection, got, ec.Want), ec)
 		return
 	}
-	placementCheck(t, out, ec)
-}
-
-func endToEnd(t *vk.T, cfg func(int) (config, *model.NUp), nCfg int) {
-	inFile := filepath.Join(vk.RepoDir(), "pkg", "testdata", "bookletTest.pdf")
-	P, err := api.PageCountFile(inFile)
-	if err != nil || P < 20 {
-		t.Inconclusive(fmt.Sprintf("corpus-file-unusable:%v", err))
+	if ec.Input != "marked" {
 		return
 	}
-	t.Count("e2e_corpus_pages", int64(P))
-	// selections with a page count known without pdfcpu's selection code
-	type sel struct {
-		s []string
-		n int
+	perPage, err := readMarkers(out)
+	if err != nil {
+		t.Violate(key+"/placement/output-unreadable", fmt.Sprintf("the harness reader cannot follow the output: %v", err), ec)
+		return
 	}
-	sels := []sel{{nil, P}, {[]string{"1-13"}, 13}, {[]string{"2-8"}, 7}, {[]string{"odd"}, (P + 1) / 2}, {[]string{"5"}, 1}, {[]string{"1-17", "!3"}, 16}}
-	var cases []e2eCase
+	placed := 0
+	for _, pp := range perPage {
+		placed += len(pp)
+	}
+	t.Count("e2e_markers_placed/"+ec.Op, int64(placed))
+	if len(perPage) != got {
+		t.Violate(key+"/placement/page-count", fmt.Sprintf("the harness reader sees %d output pages, pdfcpu reports %d", len(perPage), got), ec)
+		return
+	}
+	if class, what := placement(perPage, ec.Pages, cells, ec.Op != "booklet"); class != "" {
+		t.Violate(key+"/placement/"+class, fmt.Sprintf("%s of pages %v (%s): %s", ec.Op, ec.Selection, ec.Desc, what), ec)
+		return
+	}
+	t.Count("e2e_placement_checks_passed/"+ec.Op, 1)
+}
+
+func endToEnd(t *vk.T, cfg func(int) (config, *model.NUp), nCfg int, marked markedDoc) {
+	corpus := filepath.Join(vk.RepoDir(), "pkg", "testdata", "bookletTest.pdf")
+	cp, err := api.PageCountFile(corpus)
+	if err != nil || cp < 20 {
+		t.Inconclusive(fmt.Sprintf("corpus-file-unusable:%v", err))
+		cp = 0
+	}
+	t.Count("e2e_corpus_pages", int64(cp))
+	t.Count("e2e_marked_pages", int64(marked.pages))
 	ceil := func(a, b int) int { return (a + b - 1) / b }
-	for _, n := range []int{2, 3, 4, 8, 9, 12, 16} {
-		for _, s := range sels {
-			cases = append(cases, e2eCase{Op: "nup", N: n, Selection: s.s, Selected: s.n, Want: ceil(s.n, n)})
-		}
+	type input struct {
+		name, path string
+		pages      int
 	}
-	for r := 1; r <= 5; r++ {
-		for c := 1; c <= 5; c++ {
-			for si, s := range sels {
-				if t.Quick() && si%3 != (r+c)%3 {
-					continue // quick: 2 of the 6 selections per grid, rotating
+	inputs := []input{{"marked", marked.path, marked.pages}}
+	if cp > 0 {
+		inputs = append(inputs, input{"corpus", corpus, cp})
+	}
+	var cases []e2eCase
+	files := map[string]string{}
+	for _, in := range inputs {
+		files[in.name] = in.path
+		P := in.pages
+		// selections whose page numbers are known without pdfcpu's selection code
+		type sel struct {
+			s     []string
+			pages []int
+		}
+		rangeOf := func(a, b, step int, skip int) []int {
+			var o []int
+			for p := a; p <= b; p += step {
+				if p != skip {
+					o = append(o, p)
 				}
-				cases = append(cases, e2eCase{Op: "grid", Rows: r, Cols: c, Selection: s.s, Selected: s.n, Want: ceil(s.n, r*c)})
+			}
+			return o
+		}
+		sels := []sel{{nil, rangeOf(1, P, 1, 0)}, {[]string{"1-13"}, rangeOf(1, 13, 1, 0)}, {[]string{"2-8"}, rangeOf(2, 8, 1, 0)},
+			{[]string{"odd"}, rangeOf(1, P, 2, 0)}, {[]string{"5"}, []int{5}}, {[]string{"1-17", "!3"}, rangeOf(1, 17, 1, 3)}}
+		for _, n := range []int{2, 3, 4, 8, 9, 12, 16} {
+			for _, s := range sels {
+				cases = append(cases, e2eCase{Op: "nup", Input: in.name, N: n, Selection: s.s, Pages: s.pages, Selected: len(s.pages), Want: ceil(len(s.pages), n)})
 			}
 		}
-	}
-	// booklet sample: slots/N output pages, slots taken from the ordering layer's own (checked) result
-	rng := t.RNG("e2e-booklet")
-	for i := 0; i < t.Pick(24, 200); i++ {
-		c, nup := cfg(rng.IntN(nCfg))
-		s := sels[rng.IntN(len(sels))]
-		pages := make([]int, s.n)
-		for j := range pages {
-			pages[j] = j + 1 // only the COUNT matters for the slot count
+		for r := 1; r <= 5; r++ {
+			for c := 1; c <= 5; c++ {
+				for si, s := range sels {
+					if t.Quick() && si%3 != (r+c)%3 {
+						continue // quick: 2 of the 6 selections per grid, rotating
+					}
+					cases = append(cases, e2eCase{Op: "grid", Input: in.name, Rows: r, Cols: c, Selection: s.s, Pages: s.pages, Selected: len(s.pages), Want: ceil(len(s.pages), r*c)})
+				}
+			}
 		}
-		class, _, slots := checkOrdering(nup, pages)
-		if class != "" {
-			continue // already reported by the ordering layer
+		// booklet sample: slots/N output pages, slots taken from the ordering layer's own (checked) result
+		rng := t.RNG("e2e-booklet-" + in.name)
+		for i := 0; i < t.Pick(24, 200); i++ {
+			c, nup := cfg(rng.IntN(nCfg))
+			s := sels[rng.IntN(len(sels))]
+			class, _, slots := checkOrdering(nup, s.pages)
+			if class != "" {
+				t.Count("e2e_booklet_cases_skipped_ordering_already_reported", 1)
+				continue // reported by the ordering layer (and driven through the public route there)
+			}
+			cc := c
+			cases = append(cases, e2eCase{Op: "booklet", Input: in.name, Config: &cc, Desc: c.desc(), Selection: s.s, Pages: s.pages, Selected: len(s.pages), Want: len(slots) / c.N})
 		}
-		cc := c
-		cases = append(cases, e2eCase{Op: "booklet", Config: &cc, Desc: c.desc(), Selection: s.s, Selected: s.n, Want: len(slots) / c.N})
 	}
-	vk.Parallel(len(cases), func(i int) { runE2E(t, cases[i], inFile, i) })
+	vk.Parallel(len(cases), func(i int) { runE2E(t, cases[i], files[cases[i].Input], i) })
 	t.Count("e2e_cases", int64(len(cases)))
 }
